@@ -36,7 +36,7 @@ Definition toplevel_lexical (b : list stmt) : list name :=
 Definition toplevel_functions (b : list stmt) : list name :=
   flat_map (fun s => match s with SFunc f _ _ => [f] | _ => [] end) b.
 Definition refs_here (b : list stmt) : list name :=
-  flat_map (fun s => match s with SRef x => [x] | _ => [] end) b.
+  flat_map (fun s => match s with SRef x => [x] | SEval => [eval_name] | _ => [] end) b.
 
 Definition function_frames (self : option name) (ps : list name) (has_arguments : bool) (b : list stmt) (c : frames) : frames :=
   toplevel_lexical b ::
@@ -48,7 +48,10 @@ Definition spec_list (rec : frames -> stmt -> list (option nat)) (c : frames) (b
 
 Fixpoint spec_stmt (c : frames) (s : stmt) : list (option nat) :=
   match s with
-  | SVar _ | SLet _ | SRef _ => []
+  | SVar _ | SLet _ | SRef _ | SEval => []
+  (* with: the object environment binds nothing that is known statically; static
+     resolution goes through it (the renamers pin what is referenced inside) *)
+  | SWith b => spec_list spec_stmt (lexically_declared b :: c) b
   | SBlock b => spec_list spec_stmt (lexically_declared b :: c) b
   | STry b p cb =>
       spec_list spec_stmt (lexically_declared b :: c) b ++
@@ -109,6 +112,8 @@ Section Apply.
     | SVar x => (SVar (rn E x), n)
     | SLet x => (SLet (rn E x), n)
     | SRef x => (SRef (rn E x), n)
+    | SEval => (SEval, n)
+    | SWith b => let '(b', n') := apply_block apply_stmt E n b in (SWith b', n')
     | SBlock b => let '(b', n') := apply_block apply_stmt E n b in (SBlock b', n')
     | STry b p c =>
         let '(b', n1) := apply_block apply_stmt E n b in
